@@ -403,13 +403,21 @@ Section Eval.
     | DRef p => q_as_str Q (inner p)
     | _ => None
     end.
+  (* Regex::new(&prepare_regex(p, true)).and_then(|_| Regex::new(&prepare_regex(p, substr)))
+     .map(|re| re.find(subject).is_some()).unwrap_or(false) : the pattern must be a regular
+     expression by itself, not only once wrapped for anchoring *)
+  Definition regex_result (pat subject : str) (substr : bool) : bool :=
+    match rx_search (prepare_regex pat true) subject with
+    | None => false
+    | Some _ =>
+        match rx_search (prepare_regex pat substr) subject with
+        | Some b => b
+        | None => false
+        end
+    end.
   Definition fn_regex (l r : data) (substr : bool) : data :=
     match data_str l, data_str r with
-    | Some subject, Some pat =>
-        match rx_search (prepare_regex pat substr) subject with
-        | Some b => d_bool b
-        | None => d_bool false
-        end
+    | Some subject, Some pat => d_bool (regex_result pat subject substr)
     | _, _ => d_bool false
     end.
 
